@@ -14,7 +14,11 @@ import numpy as np
 PROPS_MODULE = "NessaiVerif.Props.C09"
 MANIFEST = dict(
     text="PARTIAL: the statistical clause (the pool is distributed as the prior restricted to the latent contour) is NOT "
-         "claimed. Lean theorems over a bookkeeping model of the pool code — candidate batches, in-bounds flags, "
+         "claimed as a statement about frequencies; its deterministic core is proved (any ordered field / R): the code's log-space "
+         "acceptance test is u < w/w_max, the accepted uniforms are the initial interval [0, w/w_max) of [0,1) and the accepted "
+         "mass at a point is q*(p/q)/w_max = p/w_max, the same multiple of the prior everywhere - false for any other normaliser "
+         "(accepted_mass_fails_with_other_normaliser); assuming uniform np.random.rand. The enlarged search (and the thorough "
+         "tier) tests real rejection pools with an exact-binomial box test. Lean theorems over a bookkeeping model of the pool code — candidate batches, in-bounds flags, "
          "log-densities, log-uniforms, gate decisions and permutation keys are arbitrary inputs, floats carry NaN/±inf "
          "semantics — for all batch counts/sizes and op sequences: check_prior_bounds keeps exactly the in-bounds rows and "
          "every flow-pool point passed it (backward_pass(rescale=True); the x-prime-prior branch is not modelled); the plain loop of FlowProposal.populate writes exactly N points, every slot once, "
